@@ -44,10 +44,17 @@ type cfg struct {
 	Bound    int   `json:"bound"`
 	LateLook bool  `json:"late_request"`     // one more request for L+1 after it was produced
 	Early    bool  `json:"early_disconnect"` // the clients disconnect long before the round is due (else: around its production)
+	// DropWatch > 0: the node stores round L+DropWatch but the watch stream does not carry it (the daemon's stream proxy
+	// drops a beacon when its one-slot buffer is full, e.g. during a burst of stores); the next round is delivered
+	DropWatch int `json:"watch_stream_drops"`
 }
 
 func (c cfg) String() string {
-	return fmt.Sprintf("waiters=%d/cancelled=%v/produce=%d/late=%v/early=%v", c.Waiters, c.Cancel, c.Produce, c.LateLook, c.Early)
+	s := fmt.Sprintf("waiters=%d/cancelled=%v/produce=%d/late=%v/early=%v", c.Waiters, c.Cancel, c.Produce, c.LateLook, c.Early)
+	if c.DropWatch > 0 {
+		s += fmt.Sprintf("/watch-drops=L+%d", c.DropWatch)
+	}
+	return s
 }
 
 type res struct {
@@ -174,6 +181,10 @@ func runOne(k *bnet.Keys, c cfg, devs []vrt.Dev, labels bool) *explore.Exec {
 					clk.Sleep(d)
 				}
 				mc.head = uint64(L + p)
+				if p == c.DropWatch {
+					vrt.Logf("node produces round %d (not carried by the watch stream)", L+p)
+					continue
+				}
 				r := client.Result(mc.result(uint64(L + p)))
 				ch := mc.watches[len(mc.watches)-1]
 				vrt.Logf("node produces round %d", L+p)
@@ -246,6 +257,7 @@ func main() {
 			{Waiters: 2, Cancel: []int{0}, Produce: 1, Bound: 4},
 			{Waiters: 2, Cancel: nil, Produce: 2, Bound: 3, LateLook: true},
 			{Waiters: 2, Cancel: []int{0, 1}, Produce: 1, Bound: 3},
+			{Waiters: 2, Cancel: nil, Produce: 2, Bound: 2, LateLook: true, DropWatch: 1},
 		}
 	} else {
 		cfgs = []cfg{
@@ -257,6 +269,9 @@ func main() {
 			{Waiters: 2, Cancel: nil, Produce: 2, Bound: 4, LateLook: true},
 			{Waiters: 2, Cancel: []int{0, 1}, Produce: 1, Bound: 4},
 			{Waiters: 3, Cancel: []int{1}, Produce: 2, Bound: 3, LateLook: true},
+			{Waiters: 2, Cancel: nil, Produce: 2, Bound: 4, LateLook: true, DropWatch: 1},
+			{Waiters: 2, Cancel: []int{0}, Produce: 3, Bound: 3, DropWatch: 1},
+			{Waiters: 1, Cancel: nil, Produce: 3, Bound: 3, LateLook: true, DropWatch: 2},
 		}
 	}
 	if c.Replay != "" {
